@@ -83,7 +83,8 @@ def head_of(site):
     """Callee (for calls) or assert operator: the part of a site that survives operand reshaping."""
     if site.kind.startswith("call:"):
         return M.callee_of(site.term) if site.term.get("res") else M.callee_decl(site.term)
-    return site.kind
+    aty = getattr(site, "aty", None)
+    return site.kind + (":" + aty if aty else "")
 
 
 def short(t, n=160):
@@ -107,7 +108,15 @@ def enumerate_sites(prog, fn):
                 descr = "[%s] of len %s" % (short(terms[1]), short(terms[0]))
             else:
                 descr = "%s(%s)" % (msg, ", ".join(short(x) for x in terms))
-            sites.append(Site(fn, bb, "assert:" + msg.split("(")[0] + ("(" + msg.split("(")[1] if "(" in msg else ""), descr, terms, t))
+            st_ = Site(fn, bb, "assert:" + msg.split("(")[0] + ("(" + msg.split("(")[1] if "(" in msg else ""), descr, terms, t)
+            # the width of the arithmetic is part of what a reviewed reason relies on ("u16-derived operands cannot overflow usize")
+            st_.aty = None
+            if msg.startswith("Overflow("):
+                for s2 in reversed(b["stmts"]):
+                    if s2["k"] == "assign" and s2["rv"].get("k") == "binop" and str(s2["rv"].get("op", "")).endswith("WithOverflow"):
+                        st_.aty = s2["rv"].get("aty")
+                        break
+            sites.append(st_)
         elif t["k"] in ("call", "tailcall"):
             c = M.callee_of(t)
             k = classify_callee(c)
